@@ -72,6 +72,7 @@ pub fn check_fn(f: &[usize], k: usize, start: usize, style: u8, form: u8, st: &m
         x
     }
     let s0 = names[start].clone();
+    crate::watch::context(&format!("stabilize with f={:?} over universe of {} (element i = 'a' x i), start {}, style {}, form {}", f, k, start, style, form));
     let got = guard(|| {
         let r = match form {
             0 => stabilize(s0.as_str(), &closure),
@@ -190,6 +191,7 @@ pub fn check_nested(g: &[usize], h: &[usize], k: usize, start: usize, st: &mut S
         apply_impl(h, &mid).map(Cow::Owned)
     });
     let s0 = names[start].clone();
+    crate::watch::context(&format!("nested stabilize: outer rule x -> h(stabilize(x, g)) with g={:?} h={:?} over universe of {}, start {}", g, h, k, start));
     let got = guard(|| stabilize(s0.as_str(), &outer).map(|c| c.into_owned()).map_err(|e| E::from_impl(&e)));
     st.evaluations += 1;
     st.traces += 1;
